@@ -26,9 +26,14 @@ import (
 	"verif/engine/symgo"
 )
 
-const (
-	repoDir  = "/repo"
-	verifDir = "/verif"
+const verifDir = "/verif"
+
+// repoDir is the tree under test.  VERIF_REPO_OVERRIDE points a run at a scratch copy
+// (used by tools_seedcheck_wt.sh to try seeded changes while /repo stays untouched);
+// such a run writes its evidence to a scratch directory, never to /verif/evidence.
+var (
+	repoDir     = "/repo"
+	evidenceDir = filepath.Join(verifDir, "evidence")
 )
 
 type harnessSpec struct {
@@ -59,6 +64,11 @@ func main() {
 			pprof.StartCPUProfile(f)
 			defer pprof.StopCPUProfile()
 		}
+	}
+	if v := os.Getenv("VERIF_REPO_OVERRIDE"); v != "" {
+		repoDir = v
+		evidenceDir = filepath.Join(os.TempDir(), "verif-evidence-override")
+		os.MkdirAll(evidenceDir, 0o755)
 	}
 	debug.SetGCPercent(1000)
 	debug.SetMemoryLimit(40 << 30)
@@ -258,7 +268,7 @@ func newScratch() (*scratch, error) {
 	if err != nil {
 		return nil, err
 	}
-	work := "go 1.23.4\n\nuse (\n\t/repo\n\t/repo/internal/dnsserver\n)\n"
+	work := "go 1.23.4\n\nuse (\n\t" + repoDir + "\n\t" + repoDir + "/internal/dnsserver\n)\n"
 	if err := os.WriteFile(filepath.Join(dir, "go.work"), []byte(work), 0o644); err != nil {
 		return nil, err
 	}
@@ -652,8 +662,8 @@ func cmdCheck(args []string) int {
 	}
 	// evidence
 	ev := buildEvidence(prop, *tier, seed, eng, reports, allAssume, time.Since(start), totalViol, loadDur)
-	os.MkdirAll(filepath.Join(verifDir, "evidence"), 0o755)
-	writeJSON(filepath.Join(verifDir, "evidence", prop+".json"), ev)
+	os.MkdirAll(evidenceDir, 0o755)
+	writeJSON(filepath.Join(evidenceDir, prop+".json"), ev)
 	if exit == 0 && inconclusive {
 		fmt.Println("INCONCLUSIVE property=" + prop + " (see stderr)")
 		return 2
